@@ -1,6 +1,7 @@
 """C12 — binom_conf_interval returns Clopper-Pearson bounds with guaranteed coverage."""
 from fractions import Fraction as Fr
 from math import comb
+import math
 import numpy as np
 from .common import guarded, run_model, rat, F
 
@@ -129,6 +130,49 @@ def run(ctx):
                             "returned": [float(r0[1][0]), float(r0[1][1])]})
                 ctx.violation("oracle", det, site="binom_conf_interval"); continue
         ops.append(f"cpcert|{alt}|{n}|{x}|{rat(cl)}|{rat(lo)}|{rat(hi)}|{rat(d)}"); meta.append(det)
+    # ---- warm starts: a limit returned by one call (or its neighbouring doubles, or the beta quantile) fed back as the starting point p
+    from scipy.stats import beta as _beta
+    for _ in range(ctx.n(60, 600)):
+        n = ctx.rng.randint(2, 60); x = ctx.rng.randint(0, n); cl = ctx.rng.choice([0.95, 0.9, 0.975, 0.99, 0.8, 0.5]); alt = ctx.rng.choice(ALTS)
+        r0 = guarded(utils.binom_conf_interval, n, x, cl, alt)
+        if r0[0] != "ok":
+            ctx.violation("oracle", {"call": "binom_conf_interval", "n": n, "x": x, "cl": cl, "alternative": alt, "issue": "call failed", "returned": r0[1:]}, site="binom_conf_interval"); continue
+        lo0, hi0 = float(r0[1][0]), float(r0[1][1])
+        a_ = (1 - cl) / 2 if alt == "two-sided" else 1 - cl
+        starts = [lo0, hi0, float(np.nextafter(lo0, 0.0)), float(np.nextafter(lo0, 1.0)), float(np.nextafter(hi0, 0.0)), float(np.nextafter(hi0, 1.0))]
+        if 0 < x:
+            starts.append(float(_beta.ppf(a_, x, n - x + 1)))
+        if x < n:
+            starts.append(float(_beta.ppf(1 - a_, x + 1, n - x)))
+        for p0 in starts:
+            if not (0.0 <= p0 <= 1.0):
+                continue
+            r = guarded(utils.binom_conf_interval, n, x, cl, alt, p0)
+            ctx.case(("warm-start", n, x, cl, alt, p0), True); ctx.count("start-at-a-limit")
+            det = {"call": "binom_conf_interval", "n": n, "x": x, "cl": cl, "alternative": alt, "p": p0, "default_call": [lo0, hi0]}
+            if r[0] != "ok" or abs(float(r[1][0]) - lo0) > 1e-7 or abs(float(r[1][1]) - hi0) > 1e-7:
+                det.update({"issue": "result depends on the starting point p (a limit of the interval itself, or a neighbouring double, given as start)", "returned": str(r[1:])[:200]})
+                ctx.violation("oracle", det, site="binom_conf_interval"); break
+            why = certify(n, x, cl, alt, float(r[1][0]), float(r[1][1]), delta)
+            if why:
+                det.update({"issue": why, "returned": [float(r[1][0]), float(r[1][1])]}); ctx.violation("oracle", det, site="binom_conf_interval"); break
+    # ---- very large n / levels very close to 1: limits next to 0 and 1 (closed forms for x = 1 and x = n-1, beta quantiles otherwise)
+    for _ in range(ctx.n(40, 300)):
+        if ctx.rng.random() < 0.6:
+            n = ctx.rng.choice([10**6, 2 * 10**6, 10**7, 850000, 3 * 10**5]); cl = ctx.rng.choice([0.95, 0.9, 0.975, 0.99])
+        else:
+            n = ctx.rng.choice([5000, 20000, 1000]); cl = ctx.rng.choice([0.9999, 0.999999, 1 - 1e-9])
+        x = ctx.rng.choice([1, 1, 2, n - 1, n - 1, n - 2, 3, n - 3]); alt = ctx.rng.choice(ALTS)
+        a_ = (1 - cl) / 2 if alt == "two-sided" else 1 - cl
+        r = guarded(utils.binom_conf_interval, n, x, cl, alt)
+        want_lo = 0.0 if alt == "upper" else (-math.expm1(math.log1p(-a_) / n) if x == 1 else float(_beta.ppf(a_, x, n - x + 1)))
+        want_hi = 1.0 if alt == "lower" else (math.exp(math.log1p(-a_) / n) if x == n - 1 else float(_beta.ppf(1 - a_, x + 1, n - x)))
+        ctx.case(("extreme-limits", n, x, cl, alt), True); ctx.count("limits-next-to-0-or-1")
+        det = {"call": "binom_conf_interval", "n": n, "x": x, "cl": cl, "alternative": alt, "expected": [want_lo, want_hi]}
+        tol = lambda w: 1e-10 + 1e-7 * min(w, 1 - w)
+        if r[0] != "ok" or abs(float(r[1][0]) - want_lo) > tol(want_lo) or abs(float(r[1][1]) - want_hi) > tol(want_hi):
+            det.update({"issue": "limits next to 0 / 1 are not the Clopper-Pearson limits (or the call fails)", "returned": str(r[1:])[:200]})
+            ctx.violation("oracle", det, site="binom_conf_interval")
     # monotone in x, nested in cl, exact coverage (small n, all x available)
     for (n, cl, alt), byx in results.items():
         if len(byx) != n + 1:
